@@ -1,5 +1,5 @@
 // drv_match enumerates topic filters and topic names over a small alphabet of levels and prints
-// what the client's matcher (client.match through the verif hook) answers:  M <filter> <name> <0|1>
+// what the client's matcher (client.match through the verif hook) answers:  M <filter> <name> <0|1|PANIC>
 package main
 
 import (
@@ -44,12 +44,18 @@ func main() {
 	names := enum([]string{"a", "b", ""}, *nl)
 	for _, f := range filters {
 		for _, n := range names {
-			m := client.VerifMatch(strings.Split(f, "/"), strings.Split(n, "/"))
-			b := 0
-			if m {
-				b = 1
-			}
-			fmt.Fprintf(out, "M %s %s %d\n", vh.HexS(f), vh.HexS(n), b)
+			b := "0"
+			func() {
+				defer func() { // the matcher runs in the client's receive loop: a panic kills the process
+					if r := recover(); r != nil {
+						b = "PANIC"
+					}
+				}()
+				if client.VerifMatch(strings.Split(f, "/"), strings.Split(n, "/")) {
+					b = "1"
+				}
+			}()
+			fmt.Fprintf(out, "M %s %s %s\n", vh.HexS(f), vh.HexS(n), b)
 		}
 	}
 }
